@@ -27,6 +27,12 @@ use purl::{PackageError, PackageType, Purl};
 #[cfg(feature = "smartstring")]
 type Small = purl::SmallString;
 
+/// the library's `SmallString`: `SmartString` with the `smartstring` feature, `String` without it
+#[cfg(feature = "smartstring")]
+type SmallS = purl::SmallString;
+#[cfg(not(feature = "smartstring"))]
+type SmallS = String;
+
 // ---------------------------------------------------------------- encoding
 
 fn h(s: &str) -> String {
@@ -272,6 +278,35 @@ const KNOWN_KEYS: [&str; 7] = [
     <well_known::VcsUrl as well_known::KnownQualifierKey>::KEY,
 ];
 
+/// user-defined typed qualifiers (indices 7, 8, 9 of the typed requests): a valid key with upper-case letters, the
+/// mixed-case spelling of a key the library knows, and an invalid key (documented panic of the typed setters)
+macro_rules! custom_key {
+    ($name:ident, $key:literal) => {
+        struct $name<'a>(&'a str);
+        impl<'a> From<&'a str> for $name<'a> {
+            fn from(v: &'a str) -> Self {
+                $name(v)
+            }
+        }
+        impl<'a> From<$name<'a>> for SmallS {
+            fn from(v: $name<'a>) -> Self {
+                SmallS::from(v.0)
+            }
+        }
+        impl<'a> well_known::KnownQualifierKey for $name<'a> {
+            const KEY: &'static str = $key;
+        }
+        impl<'a> std::fmt::Display for $name<'a> {
+            fn fmt(&self, f: &mut std::fmt::Formatter<'_>) -> std::fmt::Result {
+                f.write_str(self.0)
+            }
+        }
+    };
+}
+custom_key!(CustomArch, "Arch");
+custom_key!(CustomRepoUrl, "Repository_URL");
+custom_key!(CustomBad, "a b");
+
 fn insert_typed_n(q: &mut Qualifiers, n: usize, v: &str) -> Result<(), String> {
     match n {
         0 => q.insert_typed(well_known::gem::Platform::from(v)),
@@ -281,6 +316,9 @@ fn insert_typed_n(q: &mut Qualifiers, n: usize, v: &str) -> Result<(), String> {
         4 => q.insert_typed(well_known::FileName::from(v)),
         5 => q.insert_typed(well_known::RepositoryUrl::from(v)),
         6 => q.insert_typed(well_known::VcsUrl::from(v)),
+        7 => q.insert_typed(CustomArch::from(v)),
+        8 => q.insert_typed(CustomRepoUrl::from(v)),
+        9 => q.insert_typed(CustomBad::from(v)),
         _ => return Err(format!("bad typed index {}", n)),
     }
     Ok(())
@@ -295,6 +333,9 @@ fn get_typed_n(q: &Qualifiers, n: usize) -> Result<Option<String>, String> {
         4 => q.get_typed::<well_known::FileName>().map(|x| x.to_string()),
         5 => q.get_typed::<well_known::RepositoryUrl>().map(|x| x.to_string()),
         6 => q.get_typed::<well_known::VcsUrl>().map(|x| x.to_string()),
+        7 => q.get_typed::<CustomArch>().map(|x| x.to_string()),
+        8 => q.get_typed::<CustomRepoUrl>().map(|x| x.to_string()),
+        9 => q.get_typed::<CustomBad>().map(|x| x.to_string()),
         _ => return Err(format!("bad typed index {}", n)),
     })
 }
@@ -308,6 +349,9 @@ fn contains_typed_n(q: &Qualifiers, n: usize) -> Result<bool, String> {
         4 => q.contains_typed::<well_known::FileName>(),
         5 => q.contains_typed::<well_known::RepositoryUrl>(),
         6 => q.contains_typed::<well_known::VcsUrl>(),
+        7 => q.contains_typed::<CustomArch>(),
+        8 => q.contains_typed::<CustomRepoUrl>(),
+        9 => q.contains_typed::<CustomBad>(),
         _ => return Err(format!("bad typed index {}", n)),
     })
 }
@@ -321,6 +365,9 @@ fn remove_typed_n(q: &mut Qualifiers, n: usize) -> Result<(), String> {
         4 => q.remove_typed::<well_known::FileName>(),
         5 => q.remove_typed::<well_known::RepositoryUrl>(),
         6 => q.remove_typed::<well_known::VcsUrl>(),
+        7 => q.remove_typed::<CustomArch>(),
+        8 => q.remove_typed::<CustomRepoUrl>(),
+        9 => q.remove_typed::<CustomBad>(),
         _ => return Err(format!("bad typed index {}", n)),
     }
     Ok(())
@@ -922,6 +969,9 @@ where
                     4 => b.with_typed_qualifier(Some(well_known::FileName::from(v))),
                     5 => b.with_typed_qualifier(Some(well_known::RepositoryUrl::from(v))),
                     6 => b.with_typed_qualifier(Some(well_known::VcsUrl::from(v))),
+                    7 => b.with_typed_qualifier(Some(CustomArch::from(v))),
+                    8 => b.with_typed_qualifier(Some(CustomRepoUrl::from(v))),
+                    9 => b.with_typed_qualifier(Some(CustomBad::from(v))),
                     _ => return Err("bad typed index".to_string()),
                 },
                 dot,
@@ -938,6 +988,9 @@ where
                     4 => b.with_typed_qualifier(None::<well_known::FileName>),
                     5 => b.with_typed_qualifier(None::<well_known::RepositoryUrl>),
                     6 => b.with_typed_qualifier(None::<well_known::VcsUrl>),
+                    7 => b.with_typed_qualifier(None::<CustomArch>),
+                    8 => b.with_typed_qualifier(None::<CustomRepoUrl>),
+                    9 => b.with_typed_qualifier(None::<CustomBad>),
                     _ => return Err("bad typed index".to_string()),
                 },
                 dot,
@@ -1067,12 +1120,18 @@ where
     let parts: Vec<&str> = src.splitn(4, '/').collect();
     match parts[0] {
         "p" => Ok(GenericPurl::<T>::from_str(&unh(arg(&parts, 1)?)?).ok()),
-        "b" => {
+        "b" | "rb" => {
             let b = GenericPurlBuilder::new(T::make(arg(&parts, 1)?)?, unh(arg(&parts, 2)?)?.as_str());
             let mut out = vec![];
-            match run_builder_script(b, arg(&parts, 3)?, &mut out)? {
-                Some(b) => Ok(b.build().ok()),
-                None => Ok(None),
+            let built = match run_builder_script(b, arg(&parts, 3)?, &mut out)? {
+                Some(b) => b.build().ok(),
+                None => None,
+            };
+            if parts[0] == "rb" {
+                // the built value's canonical string, parsed again
+                Ok(built.and_then(|p| GenericPurl::<T>::from_str(&p.to_string()).ok()))
+            } else {
+                Ok(built)
             }
         },
         _ => Err(format!("bad value source {}", src)),
